@@ -300,6 +300,28 @@ func (e *twinEnv) mixedOps() []mixedOp {
 		one("Burn(d,t,A)", s(e.A), pnfttypes.NewMsgBurnPNFTRequest("d", "t", e.A.Bech)),
 		one("DeleteDenom(d,A)", s(e.A), pnfttypes.NewMsgDeleteDenomRequest("d", e.A.Bech)),
 		one("DeleteWriter(A,a,W);second", s(e.A), aoltypes.NewMsgDeleteWriter("a", e.W.Bech, e.A.Bech)),
+		// a document with many verification methods one of the later ones being invalid: refused, on every machine alike
+		{"CreateDID(d4,9 methods,7th invalid)", func(w *world.World) world.TxSpec {
+			d4 := didtypes.NewDID([]byte("twin-fourth-did"))
+			doc := k.doc("D1", d4)
+			for i := 2; i <= 9; i++ {
+				vm := didtypes.NewVerificationMethod(fmt.Sprintf("%s#extra%d", d4, i), es256k, d4, k.pub(1))
+				if i == 7 {
+					vm.PublicKeyBase58 = "0OIl-not-base58"
+				}
+				doc.VerificationMethods = append(doc.VerificationMethods, &vm)
+			}
+			return world.TxSpec{Msgs: []sdk.Msg{&didtypes.MsgCreateDIDRequest{Did: d4, Document: doc, VerificationMethodId: k.vmID(d4, 1), Signature: k.sign(doc, 0, 1), FromAddress: e.B.Bech}}, Signers: s(e.B), Fee: aolFee}
+		}},
+		{"CreateDID(d5,9 valid methods)", func(w *world.World) world.TxSpec {
+			d5 := didtypes.NewDID([]byte("twin-fifth-did"))
+			doc := k.doc("D1", d5)
+			for i := 2; i <= 9; i++ {
+				vm := didtypes.NewVerificationMethod(fmt.Sprintf("%s#extra%d", d5, i), es256k, d5, k.pub(1))
+				doc.VerificationMethods = append(doc.VerificationMethods, &vm)
+			}
+			return world.TxSpec{Msgs: []sdk.Msg{&didtypes.MsgCreateDIDRequest{Did: d5, Document: doc, VerificationMethodId: k.vmID(d5, 1), Signature: k.sign(doc, 0, 1), FromAddress: e.B.Bech}}, Signers: s(e.B), Fee: aolFee}
+		}},
 	}
 }
 
@@ -311,7 +333,7 @@ func (e *twinEnv) enumCount() int { return 18 }
 // on afterwards: leftovers of removed objects must not be treated differently by a node that restarted.
 func cleanupCases(e *twinEnv, shard, n int) []*histCase {
 	var out []*histCase
-	for i, blocks := range [][][]int{{{18}, {19}, {0, 2}}, {{18, 19}, {}, {8}}, {{4}, {18}, {19, 20}, {2}}} {
+	for i, blocks := range [][][]int{{{18}, {19}, {0, 2}}, {{18, 19}, {}, {8}}, {{4}, {18}, {19, 20}, {2}}, {{21}, {22, 21}}} {
 		if (i+9)%n != shard {
 			continue
 		}
